@@ -129,6 +129,19 @@ pub fn check_aidx(c: &AidxCase) -> Verdict {
         return edit_class(Verdict::pass().class("no-protected-change"), &c.edit);
     }
     let consistent = seen.is_some_and(|s| s[15] == 8 && art::footer_consistent(s));
+    // The loaders find the footer through the hash-size byte 13 bytes before the end. When the
+    // tail of the stored hash is cut off, that position holds another field; if its value h < 8
+    // happens to make "20 + h bytes before the end" the true footer start, the h bytes left of
+    // the hash still match. Own root cause, own key.
+    let cut_short = m.len() >= 28 && {
+        let h = m[m.len() - 13] as usize;
+        h < 8 && {
+            let f = &m[m.len() - 20 - h..];
+            let mut d = [0u8; 20];
+            d[..12].copy_from_slice(&f[8..20]);
+            f[15] == 8 && f[8..20] == of[8..20] && vh_engine::refimpl::md5::md5(&d)[..h] == f[20..20 + h]
+        }
+    };
     let mut v = Verdict::pass().nontrivial(true);
     match ArchiveIndex::parse(std::io::Cursor::new(&m)) {
         Err(e) => {
@@ -139,8 +152,8 @@ pub fn check_aidx(c: &AidxCase) -> Verdict {
         }
         Ok(_) if !consistent => {
             return Verdict::fail(
-                "C07:archive-index:parse-accepts-altered-footer",
-                format!("{}: {:?} in footer[8..28): ArchiveIndex::parse returned Ok; seen footer {}", c.art, c.edit, hex::encode(seen.unwrap_or(&[]))),
+                if cut_short { "C07:archive-index:parse-accepts-footer-whose-stored-hash-is-cut-short" } else { "C07:archive-index:parse-accepts-altered-footer" },
+                format!("{}: {:?} in footer[8..28): ArchiveIndex::parse returned Ok; last 28 bytes now {}", c.art, c.edit, hex::encode(seen.unwrap_or(&[]))),
             );
         }
         Ok(_) => return edit_class(Verdict::pass().class("ref-consistent"), &c.edit),
@@ -155,8 +168,14 @@ pub fn check_aidx(c: &AidxCase) -> Verdict {
             Err(_) => v = v.class("chunked-open-rejected"),
             Ok(_) if !consistent => {
                 return Verdict::fail(
-                    "C07:archive-index:chunked-open-accepts-altered-footer",
-                    format!("{}: {:?} in footer[8..28): ChunkedArchiveIndex::open returned Ok", c.art, c.edit),
+                    if cut_short { "C07:archive-index:chunked-open-accepts-footer-whose-stored-hash-is-cut-short" } else { "C07:archive-index:chunked-open-accepts-altered-footer" },
+                    format!(
+                        "{}: {:?} in footer[8..28): ChunkedArchiveIndex::open returned Ok; last 28 bytes were {} and are now {}",
+                        c.art,
+                        c.edit,
+                        hex::encode(of),
+                        hex::encode(seen.unwrap_or(&[]))
+                    ),
                 );
             }
             Ok(_) => {}
